@@ -52,7 +52,7 @@ def run_c09(ctx):
 PLANS["C09"] = dict(
     run=run_c09, signature=sig_default,
     technique="TLA+ spec of exact even-odd containment; TLC model-checks the ray-cast design against it and validates traces of the real planar.*Contains calls",
-    level_text="TLC exhaustively checks that the ray-cast transcription of rayIntersect/RingContains equals the exact even-odd-with-boundary predicate on every ring of <=3 (quick) / <=4 (thorough) vertices of a 4x4 grid against the 49-point half-step lattice, and judges every answer the real code gives on those domains plus seeded rings to 12 vertices, polygons with holes and multipolygons, all rotations/reversals/closings, against the exact predicate.",
+    level_text="TLC exhaustively checks that the ray-cast transcription of rayIntersect/RingContains equals the exact even-odd-with-boundary predicate on every ring of <=3 (quick) / <=4 (thorough) vertices of a 4x4 grid against the 49-point half-step lattice, and judges every answer the real code gives on those domains plus seeded rings to 12 vertices, polygons with holes and multipolygons, all rotations/reversals/closings, against the exact predicate. Every configuration is also translated as a whole by offsets up to 2^40 (exact in float64): the answers must not change.",
     level_note="Exact only on small dyadic lattices (multiples of 1/4 below 8) where the float slope comparison is exact; general-position floats are not covered. Trusted: TLC, the Json module, the int/4 -> float64 projection in the harness.",
     rule="one event = one ring/polygon/multipolygon with the answers of the real containment function for every "
          "query point of a lattice; non-trivial = the answers are not all equal (the lattice straddles the boundary); "
@@ -224,7 +224,7 @@ def run_c11(ctx):
 PLANS["C11"] = dict(
     run=run_c11, signature=sig_default,
     technique="TLA+ bag model of the quadtree with relational query specs; TLC checks the node-tree design refines it over all short histories, generates every short history for replay into the real tree, and validates the recorded traces (contents, node cells, query results)",
-    level_text="TLC explores every history of add / remove-by-point / remove-by-identity up to length 5 (quick) / 7 (thorough) over a 6-point alphabet (duplicate, midline, bound-corner, outside points) and checks in every state that the node-tree transcription (midline rule, pull-up removal, pruned nearest-child-first search, array max-heap) refines the bag model for a family of 16 query points x k in 1..3 x 3 limits x 5 boxes x 3 filters. TLC then emits every history of length 4 (5) with predicted results; the harness replays them into a real quadtree.Quadtree and after each step records contents, the node tree (hook VerifWalk) and ~130 query results, plus seeded histories of 200-500 operations over 16 points; TLC judges every event against the bag model.",
+    level_text="TLC explores every history of add / remove-by-point / remove-by-identity up to length 5 (quick) / 7 (thorough) over a 6-point alphabet (duplicate, midline, bound-corner, outside points) and checks in every state that the node-tree transcription (midline rule, pull-up removal, pruned nearest-child-first search, array max-heap) refines the bag model for a family of 16 query points x k in 1..3 x 3 limits x 5 boxes x 3 filters. TLC then emits every history of length 4 (5) with predicted results; the harness replays them into a real quadtree.Quadtree and after each step records contents, the node tree (hook VerifWalk) and ~130 query results, plus seeded histories of 200-500 operations over 16 points; TLC judges every event against the bag model. Seeded histories run in three coordinate maps: integers, integers / 1024 (a unit-square tree: distance limits below 1), and positions in an increasing table of arbitrary floats (non-dyadic bounds, cell midlines written either way, one-ulp neighbours) for the order-based operations (add, remove, bound search incl. degenerate boxes).",
     level_note="Integer coordinates in power-of-two bounds (all distances and midlines exact); ties between equidistant pointers may be broken either way; KNearest with k <= 0 is outside the quantifier and not exercised. Trusted: TLC, Json module, the VerifWalk hook (read-only), int conversions in the harness.",
     rule="one event = one operation on a real tree with the observed contents, node tree and all query results after it; every event is non-trivial (nt=1); distinct = distinct event text",
     assumptions=["pointer identity is modelled by a unique integer id per added pointer",
@@ -282,7 +282,7 @@ def sig_c03(ev):
 PLANS["C03"] = dict(
     run=run_c03, signature=sig_c03,
     technique="TLA+ state machines for the MVT command-stream encoder/decoder and the key/value tables; TLC model-checks Decode(Encode(g)) = Canon(g) and validates traces of real Marshal/Unmarshal calls byte-structure for byte-structure",
-    level_text="TLC checks on all small geometries (points/lines over {+-(2^28-1), -1, 0, 2}, rings/polygons/multipolygons of triangles) that the decoder state machine applied to the encoder state machine's command words yields Canon(g), that zig-zag is bijective there and that the decoder is total on every sequence of <=4 (5) command words over a 10-word alphabet. For seeded layer lists (all kinds, |v| < 2^28 for points/lines, |v| <= 8192 for polygons, every Go numeric kind, nil, slices, maps, colliding numbers of different types, ids, versions, extents) TLC then requires: the tile message read back through the generated protobuf type equals the specified encoding exactly (keys, values, tags, command words), three repeated marshals are byte-identical, Unmarshal and UnmarshalGzipped return Canon of the input with widened numbers.",
+    level_text="TLC checks on all small geometries (points/lines over {+-(2^28-1), -1, 0, 2}, rings/polygons/multipolygons of triangles) that the decoder state machine applied to the encoder state machine's command words yields Canon(g), that zig-zag is bijective there and that the decoder is total on every sequence of <=4 (5) command words over a 10-word alphabet. For seeded layer lists (all kinds, |v| < 2^28 for points/lines, |v| <= 8192 for polygons, every Go numeric kind, nil, slices, maps, colliding numbers of different types, ids, versions, extents) TLC then requires: the tile message read back through the generated protobuf type equals the specified encoding exactly (keys, values, tags, command words), three repeated marshals are byte-identical, Unmarshal and UnmarshalGzipped return Canon of the input with widened numbers. Feature ids of every numeric Go kind including 0; tiny rings placed up to 2^28 from the origin (winding must not depend on position); the bytes and layers returned for the previous event must be unchanged by later calls (no shared buffers).",
     level_note="Polygon kinds are judged by TLC only for |v| <= 8192 (the ring-regrouping shoelace needs 57 bits at 2^28; TLC integers are 32-bit); the cursor/zig-zag path is exercised to 2^28 on point and line kinds. NaN and -0 property values are not generated (Go map keys treat them specially). Nested or empty collections make Marshal return an error and are outside the quantifier. Trusted: TLC, Json module, gogo/protobuf vectortile.Tile.Unmarshal as the lens on the bytes, encoding/json for uncomparable values, bit interning.",
     rule="one event = one layer list with the tile message and both decoded results; non-trivial = at least one feature with a geometry; distinct = distinct event text",
     assumptions=["the generated protobuf type reads the tile bytes faithfully", "outer rings counter-clockwise and holes clockwise with non-zero area (asserted by the spec per event)"],
@@ -315,7 +315,7 @@ def run_c01(ctx):
 PLANS["C01"] = dict(
     run=run_c01, signature=sig_default,
     technique="TLA+ byte grammar of WKB/EWKB with coordinates as opaque 8-byte strings; TLC checks the reference decoder inverts the encoder on a bounded shape set, emits that set for replay, and validates the real bytes and every decode path byte for byte",
-    level_text="TLC checks on every geometry of a bounded shape set (nine kinds + nil, empty and nil-like members, collections to depth 2, header-looking coordinate bytes) x byte orders x SRIDs {absent, 1, 4326, 2^31-1} that the reference decoder inverts the encoder exactly, that every proper prefix fails to decode, and that the scanner coercion table is total. The same 534 shapes are emitted and replayed through the real wkb and ewkb packages (Marshal, Unmarshal, Decoder, Scanner x 10 destinations x raw/hex/\\\\x-hex/SRID-prefix framings, Value, ValuePrefixSRID), and seeded geometries over every float64 class (NaN payloads, infinities, -0, subnormals, random bits; up to 200 vertices, nesting 4); TLC requires the produced bytes to equal the specified encoding byte for byte and every path to return the canonical value with the written SRID under the documented coercions.",
+    level_text="TLC checks on every geometry of a bounded shape set (nine kinds + nil, empty and nil-like members, collections to depth 2, header-looking coordinate bytes) x byte orders x SRIDs {absent, 1, 4326, 2^31-1} that the reference decoder inverts the encoder exactly, that every proper prefix fails to decode, and that the scanner coercion table is total. The same 534 shapes are emitted and replayed through the real wkb and ewkb packages (Marshal, Unmarshal, Decoder, Scanner x 10 destinations x raw/hex/\\\\x-hex/SRID-prefix framings, Value, ValuePrefixSRID), and seeded geometries over every float64 class (NaN payloads, infinities, -0, subnormals, random bits; up to 200 vertices, nesting 4); TLC requires the produced bytes to equal the specified encoding byte for byte and every path to return the canonical value with the written SRID under the documented coercions. Streams: a TLA+ model of one Encoder and one Decoder over one byte pipe (encoder byte order and default SRID persist, the pipe is a FIFO of self-delimiting messages) is model-checked over every history of <=3 (4) operations; every such history is replayed through the real wkb and ewkb Encoder / Decoder with whole, 1-byte and 3-byte reads, plus seeded histories with random geometries, chunked readers and a writer that fails part-way; TLC steps the model along each recorded history and requires every Encode to have written exactly the specified bytes (or a reported prefix) and every Decode to return the oldest undecoded value, its SRID, and to consume exactly one message. Scanners and destinations kept across events (a rows.Scan loop) must answer like fresh ones.",
     level_note="The wkb (non-E) scanner's documented, deprecated SRID-prefix retry heuristic is exercised only for prefixes whose low byte is not 0 or 1 (otherwise the prefix is indistinguishable from a header); ewkb.ScannerPrefixSRID is exercised for all SRIDs. Collections with typed-nil members are outside the quantifier. Scanning into a Bound is judged on coordinate ranks (not for NaN inputs). Trusted: TLC, Json module, bit interning of coordinates, encoding/hex for the framings.",
     rule="one event = one geometry x package x byte order x SRID with the produced bytes and the result of every decode path; non-trivial = non-nil geometry; distinct = distinct event text",
     assumptions=["a float64 is identified with its bit pattern (8 bytes) by the harness interning"],
@@ -340,7 +340,7 @@ def sig_c06(ev):
 PLANS["C06"] = dict(
     run=run_c06, signature=sig_c06,
     technique="TLA+ value model (structural equality, tight bound, set-theoretic box operations, shoelace orientation); TLC checks the lattice laws on the model and validates traces of real Clone/Equal/Bound/Union/Extend/Contains/Intersects/Reverse/Orientation calls incl. every single-vertex in-place edit",
-    level_text="TLC checks the lattice laws (idempotent, commutative, associative, empty = identity, contains/extends/intersects consistency) for all pairs and triples of boxes over 3 (quick) / 4 (thorough) ranks including the empty bound, and reversal/orientation/tight-bound laws for all rings of <=4 vertices on a small grid. For seeded shapes of all nine kinds with nil and empty slices, empty members first/last, single-vertex members and nested collections, the harness records: the clone (generic and typed), the interned backing-array addresses of both values, and the value of both after editing each vertex of the clone and then of the original in place; orb.Equal on copied / perturbed / re-nested / truncated pairs and triples; Bound(); the Bound methods on pairs/triples; Reverse and Orientation. TLC requires each to equal the model (clone equal and alias-free, Equal = structural equality and an equivalence, Bound = tight box of the counting vertices, method results = box operations, double reversal = identity, orientation = shoelace sign negated by reversal).",
+    level_text="TLC checks the lattice laws (idempotent, commutative, associative, empty = identity, contains/extends/intersects consistency) for all pairs and triples of boxes over 3 (quick) / 4 (thorough) ranks including the empty bound, and reversal/orientation/tight-bound laws for all rings of <=4 vertices on a small grid. For seeded shapes of all nine kinds with nil and empty slices, empty members first/last, single-vertex members and nested collections, the harness records: the clone (generic and typed), the interned backing-array addresses of both values, and the value of both after editing each vertex of the clone and then of the original in place; orb.Equal on copied / perturbed / re-nested / truncated pairs and triples; Bound(); the Bound methods on pairs/triples; Reverse and Orientation. TLC requires each to equal the model (clone equal and alias-free, Equal = structural equality and an equivalence, Bound = tight box of the counting vertices, method results = box operations, double reversal = identity, orientation = shoelace sign negated by reversal). Equal is also asked about a Bound and the Ring / Polygon / Collection that has exactly that box, in either argument order.",
     level_note="Small integer coordinates (exact); NaN is not generated (== is not reflexive on it). Typed-nil members inside collections are not generated. Trusted: TLC, Json module, unsafe.SliceData address interning.",
     rule="one event = one observation (clone with all its single-vertex edits, an Equal pair/triple, a Bound, a Bound-method tuple, a Reverse, an Orientation); non-trivial = at least one vertex edit / non-empty bound / orientation != 0 / all Equal and Bound-method events; distinct = distinct event text",
     assumptions=["a slice's backing array is identified by its data pointer (sub-slices of one array would need offsets; Clone never sub-slices)"],
@@ -390,7 +390,7 @@ def sig_c20(ev):
 PLANS["C20"] = dict(
     run=run_c20, signature=sig_c20,
     technique="TLA+ dispatch table and collection laws over result values; TLC emits the bounded shape set, the harness calls every generic entry point, its kind-specific counterpart and the members, and TLC validates totality, agreement, the collection law and read-only-ness per event",
-    level_text="For every shape of the TLC-generated bounded set (nine kinds + nil interface, nil/empty slices, zero-ring polygons in multipolygons, zero-vertex rings in polygons, one-vertex lines, collections nested to depth 2) and seeded rectilinear degenerate-rich shapes, each of 22 generic entry points (Clone, Round, planar Area/CentroidArea/Length/DistanceFrom(WithIndex), geo Area/Length/LengthHaversine, clip, smartclip, project, three simplifiers, tilecover, wkb/ewkb/wkt Marshal, geojson geometry and feature) is called under recover; TLC requires: no panic, result = the kind-specific function's result, a collection's result = the law of the table applied to its members' results (map / sum / min / filter-unwrap / union), and the argument unchanged for the read-only entry points.",
+    level_text="For every shape of the TLC-generated bounded set (nine kinds + nil interface, nil/empty slices, zero-ring polygons in multipolygons, zero-vertex rings in polygons, one-vertex lines, collections nested to depth 2) and seeded rectilinear degenerate-rich shapes, each of 22 generic entry points (Clone, Round, planar Area/CentroidArea/Length/DistanceFrom(WithIndex), geo Area/Length/LengthHaversine, clip, smartclip, project, three simplifiers, tilecover, wkb/ewkb/wkt Marshal, geojson geometry and feature) is called under recover; TLC requires: no panic, result = the kind-specific function's result, a collection's result = the law of the table applied to its members' results (map / sum / min / filter-unwrap / union), and the argument unchanged for the read-only entry points. Read-only entry points receive a copy whose every slice has spare capacity filled with sentinels: the argument and the sentinels must be untouched (clip.Geometry on a MultiPoint counts as read-only, as documented). Seeded multi-part geometries pair a zig-zag part (a simplifier keeps everything) with a straight part full of redundant vertices: parts must not influence each other.",
     level_note="The 'programs' half of the quantifier (every type switch in the source names all nine kinds) is a static property of source text and is not decided here; a switch that misses a kind is seen only through an entry point in the table. Float-valued results that are not exact on the integer lattice (geodesic measures, diagonal lengths) are compared for generic = typed by bit pattern but take no part in the arithmetic laws. Trusted: TLC, Json module, sha1 for byte/text results.",
     rule="one event = one entry point applied to one shape (generic result, typed result, member results, argument after the call); non-trivial = non-nil shape; distinct = distinct event text",
     assumptions=["panics are recovered and recorded with the innermost orb function on the stack as the site"],
@@ -433,7 +433,7 @@ def run_c14(ctx):
 PLANS["C14"] = dict(
     run=run_c14, signature=sig_default,
     technique="TLA+ exact Must/May tile sets and sample-point polygon predicate in tile-space lattice units, MergeUp as a state machine with nondeterministic map order checked against MaxMerge; traces of the real tilecover functions validated by TLC",
-    level_text="TLC explores the MergeUp loop with every possible map iteration order for all 65536 zoom-2 tile sets x min in 0..2 (thorough; 384 structured sets quick) and checks result = MaxMerge, disjointness, equal area, no complete sibling quad left and no tile shallower than min. For real covers the harness places lattice paths and star-shaped polygons (with holes) in tile space at zooms 3..22, inverts them to lon/lat, checks with maptile.Fraction that the code sees the lattice point within 1e-6 tile, and records the cover; TLC requires Must <= cover <= May for lines (exact segment/rectangle tests with a 1/64-tile margin, so either choice at an exact corner crossing is accepted), sample-point and boundary tiles in the cover and the cover inside the bounding box for polygons, the tile itself for points, the union for collections, and MergeUp = MaxMerge on every repetition for tile sets at zoom 2 and 4.",
+    level_text="TLC explores the MergeUp loop with every possible map iteration order for all 65536 zoom-2 tile sets x min in 0..2 (thorough; 384 structured sets quick) and checks result = MaxMerge, disjointness, equal area, no complete sibling quad left and no tile shallower than min. For real covers the harness places lattice paths and star-shaped polygons (with holes) in tile space at zooms 3..22, inverts them to lon/lat, checks with maptile.Fraction that the code sees the lattice point within 1e-6 tile, and records the cover; TLC requires Must <= cover <= May for lines (exact segment/rectangle tests with a 1/64-tile margin, so either choice at an exact corner crossing is accepted), sample-point and boundary tiles in the cover and the cover inside the bounding box for polygons, the tile itself for points, the union for collections, and MergeUp = MaxMerge on every repetition for tile sets at zoom 2 and 4. Also: polygons of up to 8x8 tiles with a small hole somewhere inside (a hole within one tile row), vertices repeated in a row incl. a doubled closing vertex, windows across the equator (the one tile-row edge with an exact latitude: vertices exactly on a row edge), windows starting at tile (0,0) and whole-world windows at zooms 0..2.",
     level_note="Zero-length lines are outside the quantifier and accepted with any cover. The inverse mercator is written out in the harness (orb/internal cannot be imported) and guarded by the Fraction round-trip check; cases that miss are dropped, never judged. MergeUpPartial is not specified by the property and not checked. Trusted: TLC, Json module, the inverse projection + Fraction guard.",
     rule="one event = one real tilecover / MergeUp call; non-trivial = cover of more than one tile (lines, polygons) / all point, collection and merge events; distinct = distinct event text",
     assumptions=["edges are straight in tile space (the code interpolates in tile fractions)", "lattice points are reproduced by maptile.Fraction within 1e-6 tile (checked per point)"],
@@ -459,7 +459,7 @@ def run_c12(ctx):
 PLANS["C12"] = dict(
     run=run_c12, signature=sig_default,
     technique="TLA+ relations (subsequence, endpoints, exact rational error bound, spacing, counts, monotonicity) and transcriptions of the three simplifiers; TLC model-checks the transcriptions against the relations and validates traces of the real simplifier calls, with simplifier values reused across calls",
-    level_text="TLC checks for every path of <=5 (quick) / <=6 (thorough) vertices on a 3x3 grid and 5 thresholds that the Douglas-Peucker transcription (farthest vertex, strict >) keeps endpoints, stays within the threshold (exact rational point-segment distances), is idempotent and monotone, that the radial scan keeps the spacing, and that Visvalingam under every tie-break respects minimum counts, keep-N and monotonicity. Every path of <=4 (5) vertices on a 4x4 grid and seeded paths to 40 vertices (repeated, collinear, coincident-endpoint vertices), as lines and rings, through the typed and generic entry points, with dyadic thresholds, larger-threshold and second-application runs on REUSED simplifier values, are recorded; TLC evaluates the relations on each event.",
+    level_text="TLC checks for every path of <=5 (quick) / <=6 (thorough) vertices on a 3x3 grid and 5 thresholds that the Douglas-Peucker transcription (farthest vertex, strict >) keeps endpoints, stays within the threshold (exact rational point-segment distances), is idempotent and monotone, that the radial scan keeps the spacing, and that Visvalingam under every tie-break respects minimum counts, keep-N and monotonicity. Every path of <=4 (5) vertices on a 4x4 grid and seeded paths to 40 vertices (repeated, collinear, coincident-endpoint vertices), as lines and rings, through the typed and generic entry points, with dyadic thresholds, larger-threshold and second-application runs on REUSED simplifier values, are recorded; TLC evaluates the relations on each event. Polygons and multipolygons of 1..5 parts (parts that collapse, stay, or change, in every order) through Polygon / MultiPolygon / Simplify of all three simplifiers: the result must be the filter-map of the per-part results (spec MvtLayer), i.e. every ring is simplified and exactly the collapsed holes / polygons disappear.",
     level_note="Thresholds are dyadic (a/4) so that t^2 and 2*area thresholds are exact rationals; a vertex at distance exactly t may be kept or dropped. Geodesic distance functions for Radial are not exercised. Trusted: TLC, Json module, integer projection of coordinates.",
     rule="one event = one simplifier call (input, parameters, output, second application, larger threshold); non-trivial = at least one vertex dropped; distinct = distinct event text",
     assumptions=["integer coordinates of magnitude <= 30 so that all squared distances and cross products fit 32 bits"],
@@ -480,7 +480,7 @@ def run_c17(ctx):
 PLANS["C17"] = dict(
     run=run_c17, signature=sig_default,
     technique="TLA+ closed form of evenly spaced arclength positions in exact rational arithmetic and a transcription of the cumulative-distance walk; TLC checks walk = closed form and validates traces of real Resample/ToInterval calls on integer-length paths",
-    level_text="TLC checks that the transcription of the cumulative-distance walk (with its pinned last step) returns exactly N points equal to the closed form k*L/(N-1) for every axis-aligned path of <=3 (4) segments of length 0..3 (4) and N to 8 (12). Real calls are recorded for every path of <=3 (4) steps from a set of axis-aligned, Pythagorean and zero-length steps and N in -1..13, for seeded longer paths with N to 25, intervals d = dn/dd (incl. d <= 0, d > L, d | L), an L1 distance function on arbitrary integer paths, nil/empty/one-vertex/all-coincident lines; outputs are projected to the event's exact lattice 1/((N-1)*lcm lengths) and TLC requires equality with the closed form and the edge-case rules. For the great-circle distance functions TLC checks count, bit-identical endpoints and order.",
+    level_text="TLC checks that the transcription of the cumulative-distance walk (with its pinned last step) returns exactly N points equal to the closed form k*L/(N-1) for every axis-aligned path of <=3 (4) segments of length 0..3 (4) and N to 8 (12). Real calls are recorded for every path of <=3 (4) steps from a set of axis-aligned, Pythagorean and zero-length steps and N in -1..13, for seeded longer paths with N to 25, intervals d = dn/dd (incl. d <= 0, d > L, d | L), an L1 distance function on arbitrary integer paths, nil/empty/one-vertex/all-coincident lines; outputs are projected to the event's exact lattice 1/((N-1)*lcm lengths) and TLC requires equality with the closed form and the edge-case rules. For the great-circle distance functions TLC checks count, bit-identical endpoints and order. Two thirds of the input lines are the head of a longer buffer whose spare capacity holds foreign points.",
     level_note="Exact positions only for integer segment lengths (residual > 1e-7 lattice units = 'offlattice' event, rejected). For geo.Distance / DistanceHaversine only count, endpoints and order are judged. Trusted: TLC, Json module, lattice projection, rank interning.",
     rule="one event = one real Resample/ToInterval call; non-trivial = N >= 2 on a line of positive length; distinct = distinct event text",
     assumptions=["segment lengths are integers under the distance function used (by construction of the step set / L1 metric)"],
@@ -505,7 +505,7 @@ def sig_c10(ev):
 PLANS["C10"] = dict(
     run=run_c10, signature=sig_c10,
     technique="TLA+ exact integer/rational definitions of shoelace area, moments/centroid, point-segment distance and bracketed length; TLC checks their laws on small rings and recomputes every recorded result of the real planar functions",
-    level_text="TLC checks on every ring of <=3 (quick) / <=4 (thorough) vertices of a 4x4 grid that the shoelace area negates under reversal and is invariant under rotation, translation and explicit closing, that the centroid is translation-covariant, rotation-invariant and inside the bound of a convex ring, and that the point-segment distance is zero exactly on the segment. For seeded integer geometries TLC recomputes: the doubled area of rings (with rotations, reversals, translations), polygons with holes of any winding, multipolygons and collections (top-dimensional members only); centroids as exact rationals (area-, length- and count-weighted); DistanceFromSegmentSquared; DistanceFrom / WithIndex as the minimum over all boundary segments of every kind incl. query points on the boundary; Length bracketed per segment by integer square roots.",
+    level_text="TLC checks on every ring of <=3 (quick) / <=4 (thorough) vertices of a 4x4 grid that the shoelace area negates under reversal and is invariant under rotation, translation and explicit closing, that the centroid is translation-covariant, rotation-invariant and inside the bound of a convex ring, and that the point-segment distance is zero exactly on the segment. For seeded integer geometries TLC recomputes: the doubled area of rings (with rotations, reversals, translations), polygons with holes of any winding, multipolygons and collections (top-dimensional members only); centroids as exact rationals (area-, length- and count-weighted); DistanceFromSegmentSquared; DistanceFrom / WithIndex as the minimum over all boundary segments of every kind incl. query points on the boundary; Length bracketed per segment by integer square roots. DistanceFromWithIndex on multipolygons, multi line strings, polygons and collections of 2..4 parts (query points inside a later part's box): the distance must be the minimum over all parts.",
     level_note="Bounds forced by TLC's 32-bit integers: |v| <= 12 for area/centroid, <= 8 for distances (the property's |v| <= 2^20 range and the general-position 1e-9 clause are not covered). Centroids are compared after rounding to 1/1000, squared distances to 1/10000, lengths to 1/100. Trusted: TLC, Json module, the roundings in the harness.",
     rule="one event = one real planar call on an integer geometry; non-trivial = non-zero area (area events) / all other events; distinct = distinct event text",
     assumptions=["2*area of an integer geometry is exact in float64 (checked per event)"],
@@ -532,7 +532,7 @@ def sig_c16(ev):
 PLANS["C16"] = dict(
     run=run_c16, signature=sig_c16,
     technique="TLA+ region predicates (exact even-odd membership on a query lattice, ring shape/winding, open-path closure along the box outline) and the aroundBound corner tables; TLC model-checks the tables and validates traces of the real smartclip calls",
-    level_text="TLC checks the corner-walk tables of aroundBound (cyclic, inverse, terminating, adjacent, turning as requested). For triangles of a 4x4 (5x5) grid x boxes x both orientations, and seeded simple star-shaped rings of 3..12 vertices with vertices on box edges and corners, polygons with an interior hole, two-member multipolygons, through Ring/Polygon/MultiPolygon/Geometry, TLC requires: every output ring closed and inside the closed box, outers wound as requested and holes opposite (zero-area two-point rings from corner touches allowed), a region wholly inside returned unchanged, one wholly outside yielding nothing, and - whenever the input boundary meets the open box - q in output iff q in input for every quarter-step lattice point strictly inside the box and off all boundaries. Open sub-paths of such rings cut at the box are judged against the path closed along the box outline in the requested direction.",
+    level_text="TLC checks the corner-walk tables of aroundBound (cyclic, inverse, terminating, adjacent, turning as requested). For triangles of a 4x4 (5x5) grid x boxes x both orientations, and seeded simple star-shaped rings of 3..12 vertices with vertices on box edges and corners, polygons with an interior hole, two-member multipolygons, through Ring/Polygon/MultiPolygon/Geometry, TLC requires: every output ring closed and inside the closed box, outers wound as requested and holes opposite (zero-area two-point rings from corner touches allowed), a region wholly inside returned unchanged, one wholly outside yielding nothing, and - whenever the input boundary meets the open box - q in output iff q in input for every quarter-step lattice point strictly inside the box and off all boundaries. Open sub-paths of such rings cut at the box are judged against the path closed along the box outline in the requested direction. Comb-shaped polygons (a spine outside the box, 2..3 teeth reaching in, so the outer ring is cut into several pieces) with half-unit holes inside the teeth, through Polygon, Geometry and MultiPolygon; unit-square holes anywhere on the grid.",
     level_note="Rings that surround the box or only touch it are outside the property's domain (the spec evaluates 'boundary meets the open box' itself). Inputs are simple by construction (strictly increasing exact angle about an interior point). Lattice 1/60, residual > 1e-7 = 'offlattice'. Trusted: TLC, Json module, lattice projection, clip.LineString(OpenBound) to cut the open sub-paths.",
     rule="one event = one real smartclip call; non-trivial = non-empty output different from the input; distinct = distinct event text",
     assumptions=["input rings are simple and correctly wound (constructed, not checked by the code)"],
@@ -571,7 +571,7 @@ def run_c02(ctx):
 PLANS["C02"] = dict(
     run=run_c02, signature=sig_default,
     technique="TLA+ abstract JSON documents (GeomDoc / FeatureDoc / FCDoc, RFC 7946 shape predicate, Norm); TLC checks the document model on a bounded shape set and validates the documents parsed out of the real JSON bytes and the values decoded back through JSON and BSON",
-    level_text="TLC checks on the 534-shape bounded set that the specified document of every geometry is well-formed RFC 7946 (type names the kind, coordinates nested exactly as deep as the kind requires, collections use geometries), that a ring or bound gives the polygon's document and an empty collection null. For seeded geometries (nine kinds, nested collections incl. empty ones, coordinates over the full finite float64 range), features (id absent / string / number, properties over null, bool, number, string, array, object, optional bbox) and feature collections with foreign members, the harness parses the produced JSON generically (encoding/json, numbers -> strconv -> bit id); TLC requires the document to equal the specified one exactly, the values decoded through UnmarshalGeometry / UnmarshalFeature / UnmarshalFeatureCollection and through BSON to equal the normal form of the input, and the re-marshalled JSON to be byte-identical.",
+    level_text="TLC checks on the 534-shape bounded set that the specified document of every geometry is well-formed RFC 7946 (type names the kind, coordinates nested exactly as deep as the kind requires, collections use geometries), that a ring or bound gives the polygon's document and an empty collection null. For seeded geometries (nine kinds, nested collections incl. empty ones, coordinates over the full finite float64 range), features (id absent / string / number, properties over null, bool, number, string, array, object, optional bbox) and feature collections with foreign members, the harness parses the produced JSON generically (encoding/json, numbers -> strconv -> bit id); TLC requires the document to equal the specified one exactly, the values decoded through UnmarshalGeometry / UnmarshalFeature / UnmarshalFeatureCollection and through BSON to equal the normal form of the input, and the re-marshalled JSON to be byte-identical. The same bytes are also decoded into Geometry / Feature / FeatureCollection values that already hold the results of earlier events (a decoding loop reusing one variable) and must give the same value; json.Marshal and a Geometry literal around the value must give the same bytes as MarshalJSON / bson.Marshal of NewGeometry; the bytes returned for the previous event must still be what they were.",
     level_note="That a decimal string denotes a float64 is decided by strconv + bit interning in the harness. Geometries containing nil slices marshal to \"coordinates\": null and are not generated (the quantifier does not name them); a bare top-level empty collection is not a geometry document and is only exercised inside features. Foreign members named exactly type / bbox / features are excluded by the quantifier (other spellings such as Type, Features are generated). The six helper types are exercised in C05. Trusted: TLC, Json module, encoding/json and bson as lenses on the bytes, strconv.",
     rule="one event = one geometry / feature / feature collection with its JSON document and both decoded values; all events non-trivial; distinct = distinct event text",
     assumptions=["encoding/json (UseNumber) and go.mongodb.org bson read the produced bytes faithfully"],
@@ -627,7 +627,7 @@ def run_c15(ctx):
 PLANS["C15"] = dict(
     run=run_c15, signature=sig_default,
     technique="TLA+ MapVertices law with a tagging point function, and contracts on integer observations for the numeric projections; TLC checks the law on the bounded shape set and validates traces of project.* and mvt ProjectToWGS84/ProjectToTile",
-    level_text="TLC checks on the 534-shape bounded set that MapVertices preserves kind and nesting and numbers the visited vertices 1..n in order. Seeded shapes of every kind (nested collections, bounds) are projected by project.Geometry and the typed helpers with a tagging function (k-th call returns <1000-x, k>: it reverses an axis); TLC requires the image to be exactly MapVertices of the input and the number of calls to be the number of vertices (a bound: the box of its two projected corners). Integer tile coordinates in [-extent, 2*extent) incl. all four borders, for random tiles at zooms 0..22, power-of-two and other extents, single layers and Layers values mixing extents, are projected to WGS84 and back: TLC requires the same integers. Lon/lat <-> mercator residuals on a grid and seeded points must stay under 1e-9 degree and 1 mm; anchors (180 deg = 20037508 m, clamps) must match.",
+    level_text="TLC checks on the 534-shape bounded set that MapVertices preserves kind and nesting and numbers the visited vertices 1..n in order. Seeded shapes of every kind (nested collections, bounds) are projected by project.Geometry and the typed helpers with a tagging function (k-th call returns <1000-x, k>: it reverses an axis); TLC requires the image to be exactly MapVertices of the input and the number of calls to be the number of vertices (a bound: the box of its two projected corners). Integer tile coordinates in [-extent, 2*extent) incl. all four borders, for random tiles at zooms 0..22, power-of-two and other extents, single layers and Layers values mixing extents, are projected to WGS84 and back: TLC requires the same integers. Lon/lat <-> mercator residuals on a grid and seeded points must stay under 1e-9 degree and 1 mm; anchors (180 deg = 20037508 m, clamps) must match. Half of the tile round trips run on Layer values that were projected before for another extent or another tile (holding other features at the time).",
     level_note="exp / atan / log cannot be specified in TLA+: for the two real-valued inverses TLC only judges a recorded residual against the tolerance (a contract on the code's own output, not an independent oracle). Tile rows outside the mercator square (beyond the poles) are clamped by design and excluded. Trusted: TLC, Json module, integer rounding of observations.",
     rule="one event = one projected shape (in/out trees, call count), one layer's tile coordinates before/after the round trip, one residual observation or one anchor; all events non-trivial; distinct = distinct event text",
     assumptions=["tile coordinates are exact integers in float64"],
